@@ -441,7 +441,35 @@ class Machine(Interp):
                 v = Val(rty, ZERO)
             res.append((s2, ('return', v)))
         res = self.merge(res)
+        if len(res) > 1 and (fn.get('type') or {}).get('qualType', '').startswith('char ('):
+            res = self._join_char_returns(res, rty)
         return [(s, c[1]) for s, c in res]
+
+    def _join_char_returns(self, res, rty):
+        """A helper returning a plain `char` (a digit / character formatter) whose outcomes differ only in the character
+        returned: one outcome with "some character in the range" instead of one state per character class.  (Never for
+        bool / uint8_t results: callers branch on those and the states carry what was learnt.)"""
+        groups = []
+        for st, ctl in res:
+            v = ctl[1]
+            if v is None or v.t[0] in ('ptr', 'pset', 'fn'):
+                groups.append([st, ctl, None])
+                continue
+            d = st.dom(v.t)
+            for g in groups:
+                if g[2] is not None and g[0].raw_equal(st) and g[0].trace == st.trace and g[0].tags == st.tags:
+                    g[2] = g[2].join(d)
+                    g[0].join_knowledge(st)
+                    break
+            else:
+                groups.append([st, ctl, d])
+        out = []
+        for st, ctl, d in groups:
+            if d is not None and d.const() is None:
+                t = ('sym', st.fresh('char'), d.lo, d.hi)
+                ctl = ('return', Val(rty, t))
+            out.append((st, ctl))
+        return out
 
     # ------------------------------------------------------------------ statements
     def exec_stmt(self, st, s):
